@@ -1,14 +1,19 @@
 #!/bin/sh
 # usage: tools/try_seed.sh <property id> <patch file> [tier]
-# Applies a seeded change to /repo, runs the property's check, reverts the change.
+# Applies a seeded change to the repository, runs the property's check, reverts the change.
 # Prints the check's verdict (exit code and VIOLATION / KNOWN-FINDING / INCONCLUSIVE lines).
+# The repository is /repo unless VERIF_REPO names a scratch worktree of it (then this
+# copy of /verif should be a scratch copy too: evidence/ and out/ are rewritten).
 id=$1; patch=$2; tier=${3:-quick}
-cd /verif
-if ! git -C /repo diff --quiet; then echo "try_seed: /repo has uncommitted changes, refusing" >&2; exit 3; fi
-git -C /repo apply "$(realpath "$patch")" || { echo "try_seed: patch does not apply" >&2; exit 3; }
-timeout 3000 ./check "$id" "$tier" > /tmp/seed_$id.out 2>&1
+repo=${VERIF_REPO:-/repo}
+cd "$(dirname "$0")/.." || exit 3
+if ! git -C "$repo" diff --quiet; then echo "try_seed: $repo has uncommitted changes, refusing" >&2; exit 3; fi
+git -C "$repo" apply "$(realpath "$patch")" || { echo "try_seed: patch does not apply" >&2; exit 3; }
+out=${TMPDIR:-/tmp}/seed_$id.$$.out
+timeout 3000 ./check "$id" "$tier" > "$out" 2>&1
 rc=$?
-git -C /repo checkout -- . 
+git -C "$repo" checkout -- .
 echo "check $id $tier on seeded tree: exit $rc"
-grep -E "^VIOLATION|INCONCLUSIVE|violation" /tmp/seed_$id.out | cut -c1-400 | head -12
+grep -E "^VIOLATION|INCONCLUSIVE|violation" "$out" | cut -c1-400 | head -12
+rm -f "$out"
 exit 0
